@@ -14,28 +14,43 @@ from harness.util import shrink_list
 from harness.props import c01_lang as L
 from harness.props import c01_probe as P
 
-RULE = ("random histories (length <= 8 quick / <= 40 thorough) of solve() calls on one instance; each call is a "
-        "generated valid expression or one with a fault injected at a random token position (unknown atom, "
-        "deleted operand, unbalanced parenthesis, atom constructor raising on a marker); three configurations: "
-        "default operators with a recording atom, the documentation's string atom with {add, gt, par}, the "
-        "documentation's custom unary operators with custom steps; recon corpus first; plus histories in which the "
-        "buffers and self.expr are overwritten with garbage between the calls, and histories alternating between two "
-        "instances that share the operators/steps objects. non-trivial = a history "
-        "in which a call after a failing call that left tokens behind is judged; distinct = the history")
+RULE = ("random histories (length <= 8 quick / <= 40 thorough) of solve() calls on one instance (half of them inside "
+        "an entered `with` context); each call is a generated valid expression or one with a fault injected at a "
+        "random token position (unknown atom, deleted operand, unbalanced parenthesis, atom constructor raising on a "
+        "marker). Configurations: default operators with a recording atom; the documentation's string atom with "
+        "{add, gt, par}; the documentation's custom unary operators with custom steps; random operator SUBSETS of "
+        "the default table (with/without 'par', dict order kept or shuffled, default steps or a random custom step "
+        "order) with strings from the full language, from the subset's own symbols and plain-parenthesis / call "
+        "forms; atom classes that are not pure: constructor reading variables changed between the calls, in-place "
+        "operators returning self, constructor-call counting. Every instance gets private copies of the operator "
+        "dict and step list; the fresh instance is built from the pristine configuration at the moment of the "
+        "call. Plus histories in which the buffers and self.expr are overwritten with garbage between the calls, and "
+        "histories alternating between two instances that share the operators/steps objects; recon corpus first. "
+        "non-trivial = a history in which a call after a failing call that left tokens behind is judged; "
+        "distinct = configuration + history")
 ASSUMPTIONS = [
-    "the atom class is pure (constructor and methods have no state of their own); the operator table, the steps "
-    "and the operator classes are not written by solve() -- checked on the real objects after every generated "
-    "history (snapshot before/after), they are parameters of the model",
+    "theorems: the atom class is an algebra of pure functions (it may differ from call to call: "
+    "C02_history_independence_changing_atoms); atom classes with in-place operators or counted constructors have "
+    "no Lean model, for them the check is the property itself (k-th outcome = outcome of a fresh instance at "
+    "that moment) on the real code",
+    "the operator table, the steps and the operator classes are not written by solve(), and the instance has no "
+    "persistent attribute beyond tokens{atom,left,right}, operators, steps, expr -- both checked on the real "
+    "objects after every generated history (snapshot and vars() key sets), they are parameters / state "
+    "components of the model",
     "solve() is called with strings (an Expression object passed in is consumed by the call)",
-    "outcomes are compared as terms (recording atom) or as the documented string atom's values; every raised "
-    "exception is one outcome 'err'",
+    "outcomes are compared as terms (recording atom) or as the custom atoms' values; every raised exception is "
+    "one outcome 'err'",
     "the behaviour of customised operators must fit the template language of the translator (get_left/get_right "
-    "followed by put_* of atom expressions); both documentation examples do",
+    "followed by put_* of atom expressions); both documentation examples do. Subset configurations in which a "
+    "sign operator would push an OperatorAdd()/OperatorSub() that is not in the table are outside the model "
+    "(counted as model.unsupported, the fresh-instance comparison still applies)",
 ]
 EXPLANATION = ("theorems: for every operator table, step table and atom algebra and every history (failing calls "
-               "included) the next outcome equals a fresh instance's; a successful call leaves the buffers empty; "
-               "a failing call leaves tokens and the un-reset body would be history dependent (witness). "
-               "correspondence: outcome AND leftover buffers of the real instance vs the model after every call")
+               "included, atoms changing between calls) the next outcome equals a fresh instance's; a successful "
+               "call leaves the buffers empty; the nested instance gives every argument a fresh instance's value; a "
+               "failing call leaves tokens and the un-reset body would be history dependent (witness). "
+               "correspondence: outcome AND leftover buffers of the real instance vs the model after every call, "
+               "outcome vs a fresh real instance, persistent attributes vs the model's state components")
 
 GEN1 = core.LEAN / "SciVerif" / "Generated" / "C01Tables.lean"
 GEN2 = core.LEAN / "SciVerif" / "Generated" / "C02Tables.lean"
@@ -55,8 +70,16 @@ def gen_tables(ctx):
 
 
 # ---------------------------------------------------------------- configurations (real side)
+WORLD = {"foo": 3.0, "bar": 4.0}
+MODEL_UNSUPPORTED = ("fuel", "sign-item", "row")
+
+
+def copy_steps(steps):
+    return None if steps is None else [dict(operators=list(st["operators"]), otype=st["otype"]) for st in steps]
+
+
 def make_configs():
-    from scinumtools.solver import ExpressionSolver, AtomBase
+    from scinumtools.solver import ExpressionSolver, AtomBase, Otype
 
     class AtomStr(AtomBase):
         """the string atom of the documentation / tests (plus a constructor that raises on the marker)"""
@@ -73,30 +96,138 @@ def make_configs():
         def __gt__(self, other):
             return AtomStr(len(self.value) > len(other.value))
 
+    class AtomWorld(AtomBase):
+        """the foo/bar atom of the documentation: the constructor reads variables that change between calls"""
+
+        def __init__(self, value):
+            if isinstance(value, str):
+                v = value.strip()
+                self.value = WORLD[v] if v in WORLD else float(v)
+            else:
+                self.value = value
+
+    class Parts(AtomBase):
+        """an atom whose operators work in place and return self"""
+
+        def __init__(self, value):
+            if isinstance(value, str) and "BOOM" in value:
+                raise RuntimeError("marker")
+            self.value = [value.strip()] if isinstance(value, str) else value
+
+        def __add__(self, other):
+            self.value.extend(other.value)
+            return self
+
+        def __gt__(self, other):
+            self.value[:] = [str(len(self.value) > len(other.value))]
+            return self
+
+    class CountAtom(P.RecAtom):
+        """recording atom that counts how often the constructor is called with a text"""
+        made = 0
+
+        def __init__(self, value):
+            if isinstance(value, str):
+                CountAtom.made += 1
+            super().__init__(value)
+
+    def observe_count(fn):
+        CountAtom.made = 0
+        r = fn()
+        return {"result": r, "atoms_constructed": CountAtom.made}
+
+    def between_world(rng):
+        WORLD[rng.choice(["foo", "bar"])] = rng.choice([1.0, 2.0, 3.0, 5.0, 7.0])
+
     custom = P.custom_configs()
     dflt = ExpressionSolver(P.RecAtom)
-    return {
-        "default": dict(atom=P.RecAtom, operators=None, steps=None, alg="float",
+    plain = lambda fn: fn()
+    cfgs = {
+        "default": dict(atom=P.RecAtom, operators=None, steps=None, alg="float", mcfg="default",
                         classes=list(dflt.operators.values()), value=lambda a: L.listify(a.value),
                         mvalue=lambda t: t),
         "strcfg": dict(atom=AtomStr, operators=custom["strcfg"][0], steps=custom["strcfg"][1], alg="any",
-                       classes=list(custom["strcfg"][0].values()), value=lambda a: a.value,
+                       mcfg="strcfg", classes=list(custom["strcfg"][0].values()), value=lambda a: a.value,
                        mvalue=L.eval_str),
         "unarycfg": dict(atom=P.RecAtom, operators=custom["unarycfg"][0], steps=custom["unarycfg"][1],
-                         alg="float", classes=list(custom["unarycfg"][0].values()),
+                         alg="float", mcfg="unarycfg", classes=list(custom["unarycfg"][0].values()),
                          value=lambda a: L.listify(a.value), mvalue=lambda t: t),
+        # atom classes that are NOT pure: no Lean model, the verdict is "k-th outcome = fresh instance's outcome"
+        "worldcfg": dict(atom=AtomWorld, operators=None, steps=None, alg=None, classes=list(dflt.operators.values()),
+                         value=lambda a: repr(a.value), between=between_world),
+        "inplacecfg": dict(atom=Parts, operators=custom["strcfg"][0], steps=custom["strcfg"][1], alg=None,
+                           classes=list(custom["strcfg"][0].values()), value=lambda a: list(a.value)),
+        "countcfg": dict(atom=CountAtom, operators=None, steps=None, alg=None,
+                         classes=list(dflt.operators.values()), value=lambda a: L.listify(a.value),
+                         observe=observe_count),
     }
+    for c in cfgs.values():
+        c.setdefault("observe", plain)
+        c.setdefault("between", None)
+        c["any_atom"] = AtomBase
+    return cfgs
+
+
+def make_subset_config(rng, default_ops):
+    """an operator SUBSET of the default table (dict order kept or shuffled), with the default steps or a custom
+    step order; the same description is sent to the Lean driver"""
+    from scinumtools.solver import Otype
+    names = list(default_ops)
+    fns = ["log", "log10", "logb", "exp", "sqrt", "powb", "sin", "cos", "tan"]
+    k = rng.randint(2, 10)
+    chosen = set(rng.sample(names, k))
+    if rng.random() < 0.7:
+        chosen.add(rng.choice(fns))
+    if rng.random() < 0.5:
+        chosen.add("par")
+    else:
+        chosen.discard("par")
+    if rng.random() < 0.6:
+        chosen.add("add")
+    order = [n for n in names if n in chosen]
+    if rng.random() < 0.2:
+        rng.shuffle(order)
+    dsteps = [(['log', 'log10', 'logb', 'exp', 'sqrt', 'powb', 'sin', 'cos', 'tan', 'par'], "ARGS"),
+              (['add', 'sub'], "UNARY"), (['pow'], "BINARY"), (['mul', 'truediv'], "BINARY"),
+              (['add', 'sub'], "BINARY"), (['eq', 'ne', 'le', 'ge', 'lt', 'gt'], "BINARY"), (['not'], "UNARY"),
+              (['and'], "BINARY"), (['or'], "BINARY")]
+    if rng.random() < 0.6:
+        steps, msteps = None, None
+    else:
+        st = [x for x in dsteps if rng.random() < 0.8]
+        if rng.random() < 0.3:
+            rng.shuffle(st)
+        if rng.random() < 0.3 and st:
+            # a step that names only operators of the subset
+            st = [([n for n in ops if n in chosen] or ops, ot) for ops, ot in st]
+        steps = [dict(operators=list(ops), otype=Otype[ot]) for ops, ot in st]
+        msteps = [[list(ops), ot] for ops, ot in st]
+    return dict(atom=P.RecAtom, operators={n: default_ops[n] for n in order}, steps=steps, alg="float",
+                mcfg={"ops": order, "steps": msteps}, classes=[default_ops[n] for n in order],
+                value=lambda a: L.listify(a.value), mvalue=lambda t: t, observe=lambda fn: fn(), between=None,
+                names=order)
+
+
+def new_solver(cfg, enter=False):
+    """a new instance on PRIVATE copies of the operator dict and the step list (so that a call that writes them
+    is confined to this instance and seen by the snapshot)"""
+    from scinumtools.solver import ExpressionSolver
+    ops = None if cfg["operators"] is None else dict(cfg["operators"])
+    es = ExpressionSolver(cfg["atom"], ops, copy_steps(cfg["steps"]))
+    if enter:
+        es.__enter__()
+    return es
 
 
 def canon_tok(cfg, t):
     if t is None:
         return "none"
-    if isinstance(t, cfg["atom"]):
+    if isinstance(t, (cfg["atom"], cfg["any_atom"])) or isinstance(t, P.RecAtom):
         return {"atom": cfg["value"](t)}
     for i, c in enumerate(cfg["classes"]):
         if type(t) is c:
             args = t.args or []
-            return {"op": i, "args": [None if a is None else (cfg["value"](a) if isinstance(a, cfg["atom"]) else "?")
+            return {"op": i, "args": [None if a is None else (cfg["value"](a) if hasattr(a, "value") else "?")
                                       for a in args]}
     return {"unknown": type(t).__name__}
 
@@ -111,14 +242,27 @@ def canon_mtok(cfg, t):
     return t
 
 
+MODEL_FIELDS = {"tokens", "operators", "steps"}          # + "expr" after the first call
+MODEL_TOKEN_FIELDS = {"atom", "left", "right"}
+
+
 def snapshot(es):
-    """everything `solve` must NOT write: the operator dict, the step list, the class attributes"""
+    """everything `solve` must NOT write: the operator dict, the step list, the class attributes, the identity of
+    the objects `__init__` created"""
     ops = [(k, id(v)) for k, v in es.operators.items()]
     steps = [(tuple(st["operators"]), st["otype"], tuple(sorted(st.keys()))) for st in es.steps]
     attrs = [(c.__name__, c.symbol, getattr(c, "narg", None), getattr(c, "symbol_open", None),
               getattr(c, "symbol_separator", None), getattr(c, "symbol_close", None), c.__dict__.get("args", "absent"))
              for c in es.operators.values()]
-    return ops, steps, attrs, id(es.tokens.atom)
+    return ops, steps, attrs, (id(es.tokens), id(es.operators), id(es.steps), id(es.tokens.atom))
+
+
+def unknown_fields(es):
+    """persistent attributes the model's instance state does not have"""
+    extra = sorted(set(vars(es)) - MODEL_FIELDS - {"expr"}) + \
+        ["tokens." + k for k in sorted(set(vars(es.tokens)) - MODEL_TOKEN_FIELDS)]
+    missing = sorted(MODEL_FIELDS - set(vars(es))) + ["tokens." + k for k in sorted(MODEL_TOKEN_FIELDS - set(vars(es.tokens)))]
+    return extra, missing
 
 
 def poison(cfg, es, rng):
@@ -145,40 +289,54 @@ def poison(cfg, es, rng):
     es.expr = ex
 
 
-def run_history(cfg, exprs, poison_rng=None, check=None):
-    """one real instance -> [(outcome, left, right)] after every call"""
-    from scinumtools.solver import ExpressionSolver
-    es = ExpressionSolver(cfg["atom"], cfg["operators"], cfg["steps"])
-    before = snapshot(es)
-    out = []
-    for s in exprs:
-        if poison_rng is not None and poison_rng.random() < 0.7:
-            poison(cfg, es, poison_rng)
+def call(cfg, es, s):
+    def fn():
         try:
-            r = canon_tok(cfg, es.solve(s))
+            return canon_tok(cfg, es.solve(s))
         except Exception:
-            r = "err"
-        out.append((r, [canon_tok(cfg, t) for t in es.tokens.left], [canon_tok(cfg, t) for t in es.tokens.right]))
-        if check is not None and getattr(es.expr, "expr", None) != s:
-            check("expr", "self.expr.expr is %r after solve(%r)" % (getattr(es.expr, "expr", None), s))
-    if check is not None and snapshot(es) != before:
-        check("config", "operators / steps / operator classes were modified by solve()")
-    return out
+            return "err"
+    return cfg["observe"](fn)
 
 
 def run_fresh(cfg, s):
-    from scinumtools.solver import ExpressionSolver
-    try:
-        with ExpressionSolver(cfg["atom"], cfg["operators"], cfg["steps"]) as es:
-            return canon_tok(cfg, es.solve(s))
-    except Exception:
-        return "err"
+    return call(cfg, new_solver(cfg), s)
+
+
+def run_history(cfg, exprs, seed=0, poisoned=False, check=None):
+    """one real instance -> [(outcome, left, right, outcome of a fresh instance at that moment)]"""
+    import random
+    rng = random.Random(seed)
+    es = new_solver(cfg, enter=rng.random() < 0.5)
+    before = snapshot(es)
+    out = []
+    for s in exprs:
+        if cfg["between"]:
+            cfg["between"](rng)
+        if poisoned and rng.random() < 0.7:
+            poison(cfg, es, rng)
+        fresh = run_fresh(cfg, s)
+        r = call(cfg, es, s)
+        out.append((r, [canon_tok(cfg, t) for t in es.tokens.left], [canon_tok(cfg, t) for t in es.tokens.right], fresh))
+        if check is not None and getattr(es.expr, "expr", None) != s:
+            check("expr", "self.expr.expr is %r after solve(%r)" % (getattr(es.expr, "expr", None), s))
+    if check is not None:
+        if snapshot(es) != before:
+            check("config", "operators / steps / operator classes / the objects created by __init__ were "
+                            "modified or replaced by solve()")
+        extra, missing = unknown_fields(es)
+        if extra or missing:
+            check("fields", "the instance carries state the model does not have: extra %s, missing %s" % (extra, missing))
+    return out
 
 
 def canon_mout(cfg, m):
     if isinstance(m, dict) and "err" in m:
         return "err"
     return canon_mtok(cfg, m)
+
+
+def model_unsupported(m):
+    return isinstance(m, dict) and "err" in m and (m["err"] in MODEL_UNSUPPORTED or str(m["err"]).startswith("unsupported"))
 
 
 # ---------------------------------------------------------------- expression pools
@@ -253,80 +411,130 @@ def gen_unary(rng):
     return join(rng, lx), "valid"
 
 
-GENS = {"default": gen_default, "strcfg": gen_str, "unarycfg": gen_unary}
+def gen_world(rng):
+    names = ["foo", "bar", "foo", "2", "1.5"]
+    n = rng.randint(1, 3)
+    lx = []
+    for i in range(n):
+        if i:
+            lx.append(rng.choice(["+", "*", "-", "<"]))
+        if rng.random() < 0.2:
+            lx += ["(", rng.choice(names), "+", rng.choice(names), ")"]
+        else:
+            lx.append(rng.choice(names))
+    if rng.random() < 0.3:
+        kind, lx = inject_fault(rng, lx)
+        return join(rng, lx), kind
+    return join(rng, lx), "valid"
+
+
+def gen_subset(rng, cfg):
+    """strings for an operator subset: the full language, strings assembled from the subset's own symbols,
+    plain parentheses and call forms (also of functions outside the subset)"""
+    r = rng.random()
+    if r < 0.35:
+        return gen_default(rng)
+    syms = [c.symbol for c in cfg["classes"]]
+    if r < 0.7:
+        lx = []
+        for _ in range(rng.randint(1, 7)):
+            q = rng.random()
+            if q < 0.4:
+                lx.append(L.gen_lit(rng))
+            elif q < 0.8:
+                lx.append(rng.choice(syms))
+            else:
+                lx.append(rng.choice(["(", ")", ",", ")"]))
+        return join(rng, lx), "assembled"
+    fn = rng.choice([sy for sy in syms if sy.endswith("(") and len(sy) > 1] or ["sqrt(", "pow(", "sin("])
+    forms = [["(", "1", "+", "2", ")"], ["(", "1", ")"], [fn, "16", ")", "+", "2"], [fn, "(", "1", ")", ")"],
+             [fn, "1", ",", "2", ")"], ["(", "1", "+", "2"], ["2", "*", "(", "3", ")"], [fn, "16", ")", "+", "x"]]
+    return join(rng, rng.choice(forms)), "paren-form"
+
+
+GENS = {"default": gen_default, "strcfg": gen_str, "unarycfg": gen_unary, "worldcfg": gen_world,
+        "inplacecfg": gen_str, "countcfg": gen_default}
 
 
 # ---------------------------------------------------------------- the check
-def judge(ctx, cfgname, cfg, exprs, kinds=None):
-    real = run_history(cfg, exprs, check=lambda kind, msg: ctx.disagreement(
-        "instance-%s:%s" % (kind, cfgname), {"cfg": cfgname, "exprs": exprs}, msg))
-    model = ctx._c02_models.pop(0)
-    key = json.dumps([cfgname, exprs])
+def judge(ctx, cfgname, cfg, exprs, kinds=None, model=None, seed=0):
+    real = run_history(cfg, exprs, seed=seed, check=lambda kind, msg: ctx.disagreement(
+        "instance-%s:%s" % (kind, cfgname), {"cfg": cfgname, "config": cfg.get("mcfg"), "exprs": exprs}, msg))
+    key = json.dumps([cfgname, cfg.get("mcfg"), exprs])
     nontriv = False
-    if "ok" not in model:
-        ctx.disagreement("history:" + cfgname, {"cfg": cfgname, "exprs": exprs}, "driver error %s" % model)
-        ctx.case(key, False)
-        return
+    if model is not None and "ok" not in model:
+        ctx.disagreement("history:" + cfgname, {"cfg": cfgname, "config": cfg.get("mcfg"), "exprs": exprs},
+                         "driver error %s" % model)
+        model = None
+    mlist = model["ok"] if model is not None else [None] * len(exprs)
     dirty = False
-    for k, (s, (out, left, right), m) in enumerate(zip(exprs, real, model["ok"])):
+    for k, (s, (out, left, right, fresh), m) in enumerate(zip(exprs, real, mlist)):
         ctx.count("%s.calls" % cfgname)
         if kinds:
             ctx.count("%s.call.%s" % (cfgname, kinds[k]))
-        if isinstance(m["out"], dict) and m["out"].get("err") in ("fuel",) or \
-                (isinstance(m["out"], dict) and str(m["out"].get("err", "")).startswith("unsupported")):
-            ctx.count("model.unsupported")
-            break
-        fresh = run_fresh(cfg, s)
         if dirty:
             nontriv = True
         if out != fresh:
             def fails(q):
-                rr = run_history(cfg, q)
-                return rr[-1][0] != run_fresh(cfg, q[-1])
+                rr = run_history(cfg, q, seed=seed)
+                return rr[-1][0] != rr[-1][3]
             small = shrink_list(exprs[:k], lambda q: fails(q + [s]), max_steps=60) + [s]
             if not fails(small):
                 small = exprs[:k + 1]
-            rr = run_history(cfg, small)
+            rr = run_history(cfg, small, seed=seed)
             ctx.violation("history:" + cfgname,
-                          "call %d of a history on one %s instance: solve(%r) gives %s, a fresh instance gives %s" %
-                          (len(small), cfgname, s, json.dumps(rr[-1][0])[:200], json.dumps(run_fresh(cfg, s))[:200]),
-                          {"cfg": cfgname, "exprs": small, "outcome": rr[-1][0], "fresh": run_fresh(cfg, s)})
+                          "call %d of a history on one %s instance%s: solve(%r) gives %s, a fresh instance gives %s" %
+                          (len(small), cfgname, (" %s" % json.dumps(cfg["mcfg"])) if isinstance(cfg.get("mcfg"), dict) else "",
+                           s, json.dumps(rr[-1][0])[:200], json.dumps(rr[-1][3])[:200]),
+                          {"cfg": cfgname, "config": cfg.get("mcfg"), "exprs": small, "seed": seed,
+                           "outcome": rr[-1][0], "fresh": rr[-1][3]})
+            break
+        dirty = bool(left or right)
+        if dirty:
+            ctx.count("%s.calls_leaving_tokens" % cfgname)
+        if m is None:
+            continue
+        if model_unsupported(m["out"]):
+            ctx.count("model.unsupported")
+            mlist = [None] * len(exprs)      # the model's state is not meaningful any more
+            for j in range(k + 1, len(exprs)):
+                pass
+            model = None
             break
         mo = canon_mout(cfg, m["out"])
         if out != mo:
-            ctx.disagreement("history-outcome:" + cfgname, {"cfg": cfgname, "exprs": exprs[:k + 1]},
+            ctx.disagreement("history-outcome:" + cfgname, {"cfg": cfgname, "config": cfg.get("mcfg"), "exprs": exprs[:k + 1]},
                              "impl %s model %s" % (out, mo))
             break
         ml = [canon_mtok(cfg, t) for t in m["bufs"]["left"]]
         mr = [canon_mtok(cfg, t) for t in m["bufs"]["right"]]
         if (left, right) != (ml, mr):
-            ctx.disagreement("history-state:" + cfgname, {"cfg": cfgname, "exprs": exprs[:k + 1]},
+            ctx.disagreement("history-state:" + cfgname, {"cfg": cfgname, "config": cfg.get("mcfg"), "exprs": exprs[:k + 1]},
                              "buffers after the call: impl %s | %s, model %s | %s" % (left, right, ml, mr))
             break
         if canon_mout(cfg, m["fresh"]) != mo:
             ctx.disagreement("history-model:" + cfgname, {"cfg": cfgname, "exprs": exprs[:k + 1]},
                              "model outcome differs from the model's fresh instance")
-        dirty = bool(left or right)
-        if dirty:
-            ctx.count("%s.calls_leaving_tokens" % cfgname)
         if canon_mout(cfg, m["noreset"]) != mo:
             ctx.count("%s.calls_where_reset_matters" % cfgname)
-    ctx.case(key, nontriv, {"cfg": cfgname, "history": exprs[:4]})
+    ctx.case(key, nontriv, {"cfg": cfgname, "history": exprs[:4]} if not isinstance(cfg.get("mcfg"), dict)
+             else {"cfg": cfg["mcfg"], "history": exprs[:3]})
 
 
 def poisoned_stream(ctx, cfgname, cfg, histories):
     """between the calls everything an earlier call may have left is overwritten with garbage tokens and a
     half-consumed Expression; every outcome must still be a fresh instance's"""
     for exprs in histories:
-        real = run_history(cfg, exprs, poison_rng=ctx.rng)
+        seed = ctx.rng.randrange(1 << 30)
+        real = run_history(cfg, exprs, seed=seed, poisoned=True)
         ctx.count("%s.poisoned_calls" % cfgname, len(exprs))
-        for k, (s, (out, _, _)) in enumerate(zip(exprs, real)):
-            fresh = run_fresh(cfg, s)
+        for k, (s, (out, _, _, fresh)) in enumerate(zip(exprs, real)):
             if out != fresh:
                 ctx.violation("history:" + cfgname,
                               "solve(%r) on a %s instance whose buffers/expr held leftovers gives %s, a fresh instance %s"
                               % (s, cfgname, json.dumps(out)[:200], json.dumps(fresh)[:200]),
-                              {"cfg": cfgname, "exprs": exprs[:k + 1], "poisoned": True, "outcome": out, "fresh": fresh})
+                              {"cfg": cfgname, "exprs": exprs[:k + 1], "seed": seed, "poisoned": True,
+                               "outcome": out, "fresh": fresh})
                 return
         ctx.case(json.dumps(["poisoned", cfgname, exprs]), True, None)
 
@@ -335,16 +543,15 @@ def interleaved_stream(ctx, cfgname, cfg, histories):
     """two instances built on the SAME operators / steps objects, called alternately"""
     from scinumtools.solver import ExpressionSolver
     for exprs in histories:
-        a = ExpressionSolver(cfg["atom"], cfg["operators"], cfg["steps"])
-        b = ExpressionSolver(cfg["atom"], cfg["operators"], cfg["steps"])
+        ops = None if cfg["operators"] is None else dict(cfg["operators"])
+        steps = copy_steps(cfg["steps"])
+        a = ExpressionSolver(cfg["atom"], ops, steps)
+        b = ExpressionSolver(cfg["atom"], ops, steps)
         ctx.count("%s.interleaved_calls" % cfgname, len(exprs))
         for k, s in enumerate(exprs):
             es = a if k % 2 == 0 else b
-            try:
-                out = canon_tok(cfg, es.solve(s))
-            except Exception:
-                out = "err"
             fresh = run_fresh(cfg, s)
+            out = call(cfg, es, s)
             if out != fresh:
                 ctx.violation("history:" + cfgname,
                               "two %s instances sharing operators/steps, called alternately: solve(%r) gives %s, "
@@ -363,21 +570,39 @@ def correspond(ctx: Ctx):
     plan = []
     for f in sorted(CORPUS.glob("*.json")):
         for h in json.loads(f.read_text()).get("histories", []):
-            plan.append((h["cfg"], h["exprs"], None))
+            plan.append((h["cfg"], cfgs[h["cfg"]], h["exprs"], None))
     for cfgname in ("default", "strcfg", "unarycfg"):
         for _ in range(count):
             n = rng.randint(2, maxlen)
             calls = [GENS[cfgname](rng) for _ in range(n)]
-            plan.append((cfgname, [c[0] for c in calls], [c[1] for c in calls]))
-    ctx._c02_models = ctx.driver.ask_many(
-        [{"k": "history", "cfg": c, "alg": cfgs[c]["alg"], "exprs": ex} for c, ex, _ in plan])
-    for cfgname, exprs, kinds in plan:
-        judge(ctx, cfgname, cfgs[cfgname], exprs, kinds)
-        if len(ctx.violations) >= 3:
+            plan.append((cfgname, cfgs[cfgname], [c[0] for c in calls], [c[1] for c in calls]))
+    # operator subsets of the default table, with and without 'par', default and custom step orders
+    default_ops = dict(new_solver(cfgs["default"]).operators)
+    for i in range(count):
+        sub = make_subset_config(rng, default_ops)
+        sub["any_atom"] = cfgs["default"]["any_atom"]
+        n = rng.randint(2, min(maxlen, 12))
+        calls = [gen_subset(rng, sub) for _ in range(n)]
+        ctx.count("subset.%s_par" % ("with" if "par" in sub["names"] else "without"))
+        ctx.count("subset.%s_steps" % ("default" if sub["steps"] is None else "custom"))
+        plan.append(("subset", sub, [c[0] for c in calls], [c[1] for c in calls]))
+    # atom classes that are not pure (constructor reads changing variables / in-place operators / counted)
+    for cfgname in ("worldcfg", "inplacecfg", "countcfg"):
+        for _ in range(count // 2):
+            n = rng.randint(2, maxlen)
+            calls = [GENS[cfgname](rng) for _ in range(n)]
+            plan.append((cfgname, cfgs[cfgname], [c[0] for c in calls], [c[1] for c in calls]))
+    modelled = [i for i, p in enumerate(plan) if p[1]["alg"] is not None]
+    answers = ctx.driver.ask_many(
+        [{"k": "history", "cfg": plan[i][1]["mcfg"], "alg": plan[i][1]["alg"], "exprs": plan[i][2]} for i in modelled])
+    model_of = dict(zip(modelled, answers))
+    for i, (cfgname, cfg, exprs, kinds) in enumerate(plan):
+        judge(ctx, cfgname, cfg, exprs, kinds, model=model_of.get(i), seed=rng.randrange(1 << 30))
+        if len(ctx.violations) >= 4:
             break
     extra = max(30, count // 5)
-    for cfgname in ("default", "strcfg", "unarycfg"):
-        if len(ctx.violations) >= 3:
+    for cfgname in ("default", "strcfg", "unarycfg", "inplacecfg"):
+        if len(ctx.violations) >= 4:
             break
         hs = [[GENS[cfgname](rng)[0] for _ in range(rng.randint(2, maxlen))] for _ in range(extra)]
         poisoned_stream(ctx, cfgname, cfgs[cfgname], hs)
@@ -392,18 +617,19 @@ def search(ctx: Ctx):
         "default": (["1 + x", "(1", "2 * BOOM", "3 +", "sin(1,2)", "(1)(2)"], ["2", "1+1", "sin(0)"]),
         "strcfg": (["a + BOOM", "(a", "a + ", "> a"], ["a", "a + b", "(a) > (b)"]),
         "unarycfg": (["~3 + x", "~", "2^ + BOOM", "3 +"], ["2", "~3 + 2^"]),
+        "inplacecfg": (["a + b", "a + b +", "(a"], ["a + c", "a"]),
+        "countcfg": (["1 + 2", "1 + x"], ["1", "2 + 1"]),
     }
     for cfgname, (bad, good) in pools.items():
         cfg = cfgs[cfgname]
         for b in bad:
             for g in good:
                 rr = run_history(cfg, [b, g])
-                fr = run_fresh(cfg, g)
-                if rr[-1][0] != fr:
+                if rr[-1][0] != rr[-1][3]:
                     ctx.violation("history:" + cfgname,
                                   "after solve(%r) the same %s instance gives %s for solve(%r), a fresh one %s" %
-                                  (b, cfgname, json.dumps(rr[-1][0])[:200], g, json.dumps(fr)[:200]),
-                                  {"cfg": cfgname, "exprs": [b, g], "outcome": rr[-1][0], "fresh": fr})
+                                  (b, cfgname, json.dumps(rr[-1][0])[:200], g, json.dumps(rr[-1][3])[:200]),
+                                  {"cfg": cfgname, "exprs": [b, g], "outcome": rr[-1][0], "fresh": rr[-1][3]})
                     return
 
 
@@ -413,9 +639,20 @@ def replay(ctx: Ctx, payload):
         print(json.dumps(payload, indent=1)[:3000])
         return 0
     cfgs = make_configs()
-    cfg = cfgs[rp["cfg"]]
-    print("configuration: %s" % rp["cfg"])
-    for s, (out, left, right) in zip(rp["exprs"], run_history(cfg, rp["exprs"])):
+    if isinstance(rp.get("config"), dict):
+        from scinumtools.solver import Otype
+        default_ops = dict(new_solver(cfgs["default"]).operators)
+        order = rp["config"]["ops"]
+        st = rp["config"]["steps"]
+        cfg = dict(cfgs["default"], operators={n: default_ops[n] for n in order},
+                   steps=None if st is None else [dict(operators=list(o), otype=Otype[t]) for o, t in st],
+                   classes=[default_ops[n] for n in order])
+        print("configuration: operator subset %s, steps %s" % (order, st))
+    else:
+        cfg = cfgs[rp["cfg"]]
+        print("configuration: %s" % rp["cfg"])
+    for s, (out, left, right, fresh) in zip(rp["exprs"], run_history(cfg, rp["exprs"], seed=rp.get("seed", 0),
+                                                                      poisoned=bool(rp.get("poisoned")))):
         print("solve(%r) -> %s   [fresh instance: %s]   buffers left behind: %s | %s" %
-              (s, json.dumps(out)[:160], json.dumps(run_fresh(cfg, s))[:160], left, right))
+              (s, json.dumps(out)[:160], json.dumps(fresh)[:160], left, right))
     return 0
